@@ -218,3 +218,112 @@ pub fn par_map<S, T: Send>(
     });
     slots.into_iter().map(|v| v.expect("slot filled")).collect()
 }
+
+/// Like `par_map`, but every item runs under a watchdog: an item that does not finish
+/// within `timeout_ms` yields `None` (its thread is abandoned and replaced; abandoned
+/// threads die when the process exits — callers must leave via `std::process::exit`).
+pub fn par_map_watchdog<I, S, T>(
+    items: std::sync::Arc<Vec<I>>,
+    threads: usize,
+    timeout_ms: u64,
+    mk: impl Fn() -> S + Send + Sync + 'static,
+    f: impl Fn(&mut S, &I) -> T + Send + Sync + 'static,
+) -> Vec<Option<T>>
+where
+    I: Send + Sync + 'static,
+    T: Send + 'static,
+    S: 'static,
+{
+    use std::sync::atomic::{AtomicBool, AtomicUsize, Ordering};
+    use std::sync::{Arc, Mutex, mpsc};
+    use std::time::{Duration, Instant};
+
+    struct Slot {
+        current: Mutex<Option<(Instant, usize)>>,
+        abandoned: AtomicBool,
+    }
+    let n = items.len();
+    let next = Arc::new(AtomicUsize::new(0));
+    let (tx, rx) = mpsc::channel::<(usize, T)>();
+    let mk = Arc::new(mk);
+    let f = Arc::new(f);
+    let slots: Arc<Mutex<Vec<Arc<Slot>>>> = Arc::new(Mutex::new(Vec::new()));
+
+    let spawn_worker = {
+        let items = items.clone();
+        let next = next.clone();
+        let mk = mk.clone();
+        let f = f.clone();
+        let slots = slots.clone();
+        move |tx: mpsc::Sender<(usize, T)>| {
+            let slot = Arc::new(Slot { current: Mutex::new(None), abandoned: AtomicBool::new(false) });
+            slots.lock().unwrap().push(slot.clone());
+            let items = items.clone();
+            let next = next.clone();
+            let mk = mk.clone();
+            let f = f.clone();
+            std::thread::Builder::new()
+                .stack_size(64 << 20)
+                .spawn(move || {
+                    let mut st = mk();
+                    loop {
+                        let i = next.fetch_add(1, Ordering::Relaxed);
+                        if i >= items.len() {
+                            break;
+                        }
+                        *slot.current.lock().unwrap() = Some((Instant::now(), i));
+                        let r = f(&mut st, &items[i]);
+                        let mut cur = slot.current.lock().unwrap();
+                        if slot.abandoned.load(Ordering::SeqCst) {
+                            return;
+                        }
+                        *cur = None;
+                        let _ = tx.send((i, r));
+                    }
+                })
+                .unwrap();
+        }
+    };
+    for _ in 0..threads.max(1) {
+        spawn_worker(tx.clone());
+    }
+    let mut out: Vec<Option<T>> = (0..n).map(|_| None).collect();
+    let mut done = vec![false; n];
+    let mut ndone = 0;
+    while ndone < n {
+        if let Ok((i, r)) = rx.recv_timeout(Duration::from_millis(50)) {
+            if !done[i] {
+                done[i] = true;
+                ndone += 1;
+                out[i] = Some(r);
+            }
+            // drain whatever else is ready before scanning
+            while let Ok((i, r)) = rx.try_recv() {
+                if !done[i] {
+                    done[i] = true;
+                    ndone += 1;
+                    out[i] = Some(r);
+                }
+            }
+        }
+        let snapshot: Vec<Arc<Slot>> = slots.lock().unwrap().clone();
+        for s in snapshot {
+            if s.abandoned.load(Ordering::SeqCst) {
+                continue;
+            }
+            let cur = s.current.lock().unwrap();
+            if let Some((t0, i)) = *cur {
+                if t0.elapsed() > Duration::from_millis(timeout_ms) {
+                    s.abandoned.store(true, Ordering::SeqCst);
+                    drop(cur);
+                    if !done[i] {
+                        done[i] = true;
+                        ndone += 1;
+                    }
+                    spawn_worker(tx.clone());
+                }
+            }
+        }
+    }
+    out
+}
